@@ -370,6 +370,10 @@ impl W {
     }
 
     pub fn execute_shift(&self, db: &mut Db, from: &MarketKeys, to: &MarketKeys, owner: Pubkey, nonce: [u8; 32], by: Pubkey, throw: bool) -> std::result::Result<(), TxError> {
+        process(db, &self.execute_shift_ix(from, to, owner, nonce, by, throw), &[by])
+    }
+
+    pub fn execute_shift_ix(&self, from: &MarketKeys, to: &MarketKeys, owner: Pubkey, nonce: [u8; 32], by: Pubkey, throw: bool) -> solana_program::instruction::Instruction {
         let shift = self.shift_pda(&owner, &nonce);
         let accounts = gmsol_store::accounts::ExecuteShift {
             authority: by, store: self.store, token_map: self.token_map, oracle: self.oracle, from_market: from.market, to_market: to.market, shift, from_market_token: from.market_token, to_market_token: to.market_token,
@@ -381,7 +385,7 @@ impl W {
         toks.sort();
         toks.dedup();
         i.accounts.extend(toks.into_iter().map(|t| meta(if t == self.a { self.feed_a } else { self.feed_b }, false, false)));
-        process(db, &i, &[by])
+        i
     }
 
     pub fn close_shift(&self, db: &mut Db, from: &MarketKeys, to: &MarketKeys, owner: Pubkey, nonce: [u8; 32], by: Pubkey) -> std::result::Result<(), TxError> {
